@@ -63,7 +63,15 @@ def depth0(body):
 
 def has_unguarded_cycle(text):
     """a type alias that refers to itself (possibly through other aliases) outside any object/array/tuple/generic brackets"""
-    decls = dict(re.findall(r"type\s+(\w+)\s*(?:<[^=]*>)?\s*=\s*([^;]*);", text))
+    decls = {}
+    for m in re.finditer(r"type\s+(\w+)\s*(?:<[^=]*>)?\s*=", text):
+        # the body runs to the first `;` outside all brackets
+        depth, j = 0, m.end()
+        while j < len(text) and not (text[j] == ";" and depth == 0):
+            if text[j] in "{[<(": depth += 1
+            elif text[j] in "}]>)": depth = max(0, depth - 1)
+            j += 1
+        decls[m.group(1)] = text[m.end():j]
     graph = {n: {m for m in decls if re.search(r"\b%s\b" % re.escape(m), depth0(b))} for n, b in decls.items()}
     # parenthesised unions count as depth 0 for this purpose: strip parentheses first
     graph2 = {}
@@ -118,7 +126,7 @@ def check(run):
     g = tsgen.TsGen(run.seed + 401)
     projects, tags = [], []
     valid = []
-    for i in range(120 if quick else 3000):
+    for i in range(120 if quick else 12000):
         decls, parsers = g.forced_program(i) if i % 5 == 0 else g.program()
         text = tsgen.program_ts(decls, parsers)
         valid.append(text)
@@ -129,9 +137,9 @@ def check(run):
         projects.append(files); tags.append("valid")
     for u in UNSUPPORTED:
         projects.append([("entry.ts", u + "\nparse.buildParsers<{ A: A }>();")]); tags.append("unsupported-syntax")
-    for i in range(200 if quick else 6000):
+    for i in range(200 if quick else 24000):
         projects.append([("entry.ts", mutate_text(r.choice(valid), r))]); tags.append("mutated-text")
-    for i in range(30 if quick else 400):
+    for i in range(30 if quick else 1200):
         k = r.choice(["missing", "cycle", "selfimport", "nofile"])
         if k == "missing":
             files = [("entry.ts", 'import { X } from "./m0";\nparse.buildParsers<{ X: X }>();'), ("m0.ts", "export type Y = string;")]
@@ -145,7 +153,7 @@ def check(run):
             files = [("entry.ts", 'import { X } from "./gone";\nparse.buildParsers<{ X: X }>();')]
         projects.append(files); tags.append("imports")
     # enums declared in one module and used member-wise from another (initialisers: literals, constants, expressions)
-    for i in range(30 if quick else 400):
+    for i in range(30 if quick else 1200):
         pad = "// " + "x" * r.randrange(40, 400) + "\n" * r.randrange(1, 6)
         inits = r.sample(['"created"', "PREFIX", "1 + 2", "7", '`${PREFIX}_x`', "other.length"], r.randrange(2, 4))
         members = ", ".join("M%d = %s" % (j, e) for j, e in enumerate(inits))
@@ -181,6 +189,9 @@ def check(run):
         'export type O = Omit<O, "a">;\nparse.buildParsers<{ O: O }>();',
         'export type E = Exclude<E, string>;\nparse.buildParsers<{ E: E }>();',
         'export type C = C extends string ? 1 : 2;\nparse.buildParsers<{ C: C }>();',
+        'export type T = { type: "a"; c: "c" | "ab" } | { type: "b"; c: "ab" | "x" };\nparse.buildParsers<{ T: T }>();',
+        'export type T = { k: "a" | "z" } | { k: "b" | "z" } | { k: "c" };\nparse.buildParsers<{ T: T }>();',
+        'export type S = "ab" | "x";\nexport type T = { c: S; t: 1 } | { c: "ab"; t: 2 } | { c: S | "q"; t: 3 };\nparse.buildParsers<{ T: T }>();',
     ]
     for t in CORPUS:
         projects.append([("entry.ts", t)]); tags.append("corpus")
